@@ -189,7 +189,7 @@ func execRestoreFailsThenSignal(out *scenOut, sig syscall.Signal) {
 	run.p.Send(userMsg{9, 0})
 	if !waitFor(3*time.Second, func() bool { return ctl.log.has("update-exit", "execdone:x") }) {
 		out.fail(finding{Property: "C17", Class: "new", What: "the callback message of an Exec was not delivered", Input: desc})
-		run.p.Kill()
+		killNow(run.p)
 		run.wait(3 * time.Second)
 		return
 	}
@@ -202,7 +202,7 @@ func execRestoreFailsThenSignal(out *scenOut, sig syscall.Signal) {
 			out.fail(finding{Property: p, Class: "new", What: "a signal did not end the program although the terminal is no longer released (signals stayed ignored after a failed terminal restore)", Input: desc,
 				Expected: "Run returns", Observed: fmt.Sprintf("still running; restore error delivered to the callback: %v", cbErr.Load())})
 		}
-		run.p.Kill()
+		killNow(run.p)
 		run.wait(3 * time.Second)
 		return
 	}
@@ -387,7 +387,7 @@ func execOnce(out *scenOut, bits int, hist []int, nexec int, fail, withCallback 
 		if atomic.LoadInt32(&killDuring) == 1 {
 			atomic.StoreInt32(&killDuring, 2)
 			if end == "kill-during" {
-				prog.Kill()
+				killNow(prog)
 			} else {
 				// a command goroutine panics: recovered by the library, which shuts down
 				done := make(chan struct{})
@@ -605,7 +605,7 @@ func execReleaseFails(out *scenOut, exit string) {
 	if !run.wait(3 * time.Second) {
 		out.fail(finding{Property: "C04", Class: "new", What: "Run did not return after " + exit + " that followed an Exec whose terminal release failed (the event loop is stuck)", Input: desc,
 			Expected: "Run returns " + want, Observed: "still running after 3s"})
-		run.p.Kill()
+		killNow(run.p)
 		run.wait(3 * time.Second)
 		return
 	}
@@ -662,7 +662,7 @@ func execAfterEOF(out *scenOut) {
 	time.Sleep(120 * time.Millisecond) // the read loop has seen end of input
 	out.record("exec-after-eof", desc)
 	if !okA {
-		run.p.Kill()
+		killNow(run.p)
 		run.wait(3 * time.Second)
 		return // (the set-up did not work here: nothing to judge)
 	}
@@ -675,7 +675,7 @@ func execAfterEOF(out *scenOut) {
 	run.p.Send(userMsg{9, 0})
 	if !waitFor(3*time.Second, func() bool { return ctl.log.has("update-exit", "execdone:x") }) {
 		out.fail(finding{Property: "C17", Class: "new", What: "the callback message of an Exec was not delivered", Input: desc})
-		run.p.Kill()
+		killNow(run.p)
 		run.wait(3 * time.Second)
 		return
 	}
@@ -689,7 +689,7 @@ func execAfterEOF(out *scenOut) {
 	}
 	run.p.Quit()
 	if !run.wait(3 * time.Second) {
-		run.p.Kill()
+		killNow(run.p)
 		run.wait(3 * time.Second)
 	}
 }
@@ -727,7 +727,7 @@ func signalAfterReleases(out *scenOut, n int, sig syscall.Signal) {
 	select {
 	case <-released:
 	case <-time.After(3 * time.Second):
-		run.p.Kill()
+		killNow(run.p)
 		run.wait(3 * time.Second)
 		return
 	}
@@ -753,7 +753,7 @@ func signalAfterReleases(out *scenOut, n int, sig syscall.Signal) {
 			out.fail(finding{Property: prop, Class: "new", What: "a signal did not end the program although the terminal had been restored (signals stayed ignored)", Input: desc,
 				Expected: "Run returns", Observed: "still running after 2s"})
 		}
-		run.p.Kill()
+		killNow(run.p)
 		run.wait(3 * time.Second)
 		return
 	}
@@ -813,7 +813,7 @@ func readErrAfterExec(out *scenOut, nexec int) {
 		run.p.Send(userMsg{9, k})
 		if !waitFor(3*time.Second, func() bool { return ctl.log.has("update-exit", fmt.Sprintf("execdone:%d", k)) }) {
 			out.fail(finding{Property: "C17", Class: "new", What: "the callback message of an Exec was not delivered", Input: desc})
-			run.p.Kill()
+			killNow(run.p)
 			run.wait(3 * time.Second)
 			return
 		}
@@ -831,7 +831,7 @@ func readErrAfterExec(out *scenOut, nexec int) {
 	if !run.wait(4 * time.Second) {
 		out.fail(finding{Property: "C04", Class: "new", What: "Run did not return after an input read error (the error came from a read loop started after an Exec)", Input: desc,
 			Expected: "Run returns the reader's error", Observed: "still running after 4s"})
-		run.p.Kill()
+		killNow(run.p)
 		run.wait(3 * time.Second)
 		return
 	}
@@ -883,7 +883,7 @@ func signalsOptionAcrossExec(out *scenOut, sig syscall.Signal) {
 	}
 	run.p.Quit()
 	if !run.wait(3 * time.Second) {
-		run.p.Kill()
+		killNow(run.p)
 		run.wait(3 * time.Second)
 	}
 }
@@ -948,7 +948,7 @@ func execProcessReal(out *scenOut) {
 		}
 		run.p.Quit()
 		if !run.wait(3 * time.Second) {
-			run.p.Kill()
+			killNow(run.p)
 			run.wait(3 * time.Second)
 		}
 	}
